@@ -187,6 +187,9 @@ func NewAccumulator(sk *gabikeys.PrivateKey) (*Update, error) {
 
 // Sign the accumulator into a SignedAccumulator (c.f. SignedAccumulator.UnmarshalVerify()).
 func (acc *Accumulator) Sign(sk *gabikeys.PrivateKey) (*SignedAccumulator, error) {
+	if sk.ECDSA == nil {
+		return nil, errors.New("private key does not support revocation")
+	}
 	sig, err := signed.MarshalSign(sk.ECDSA, acc)
 	if err != nil {
 		return nil, err
@@ -398,6 +401,19 @@ func NewEventList(events ...*Event) *EventList {
 }
 
 func FlattenEventLists(eventslist []*EventList) (*EventList, error) {
+	// lists without events contribute nothing (and have no first index to sort by); a list without product (decoded
+	// without ComputeProduct) cannot be merged into a list with one
+	nonempty := make([]*EventList, 0, len(eventslist))
+	for _, e := range eventslist {
+		if e == nil || len(e.Events) == 0 {
+			continue
+		}
+		if e.product == nil {
+			return nil, errors.New("event list without product")
+		}
+		nonempty = append(nonempty, e)
+	}
+	eventslist = nonempty
 	sort.Slice(eventslist, func(i, j int) bool {
 		return eventslist[i].Events[0].Index < eventslist[j].Events[0].Index
 	})
